@@ -93,7 +93,7 @@ def _int_of(bits_vals):
     return sum(1 << i for i, b in enumerate(bits_vals) if b)
 
 
-def analyse(aut, kind, mem_vars, iterates=None):
+def analyse(aut, kind, mem_vars, iterates=None, win=None):
     """Explicit closed-loop analysis.  Returns list of failure dicts."""
     def bits(names):
         out = list()
@@ -116,8 +116,10 @@ def analyse(aut, kind, mem_vars, iterates=None):
     E = _tt(aut, aut.action['env'], base)
     S = _tt(aut, aut.action['sys'], base)
     init = _tt(aut, aut.init['impl'] & aut.init['env'], state_bits)
-    holds = [_tt(aut, h, xb + yb) for h in aut.win['<>[]']]
-    goals = [_tt(aut, g, xb + yb) for g in aut.win['[]<>']]
+    # the liveness predicates as the caller set them before solving, if given
+    win_h, win_g = win if win is not None else (aut.win['<>[]'], aut.win['[]<>'])
+    holds = [_tt(aut, h, xb + yb) for h in win_h]
+    goals = [_tt(aut, g, xb + yb) for g in win_g]
     X = list(itertools.product([False, True], repeat=nx))
     Y = list(itertools.product([False, True], repeat=ny))
     M = list(itertools.product([False, True], repeat=nm))
@@ -314,6 +316,7 @@ def monitor(kind, seed, n_games, backend='cudd'):
             aut = make_game(rnd, de, ds, moore, plus_one, qinit, nh, ng, backend)
             desc = dict(env=de, sys=ds, moore=moore, plus_one=plus_one, qinit=qinit,
                         holds=nh, goals=ng, game_no=n, seed=seed)
+            as_set = (list(aut.win['<>[]']), list(aut.win['[]<>']))
             try:
                 with contextlib.redirect_stdout(io.StringIO()):
                     if kind == 'streett':
@@ -346,7 +349,7 @@ def monitor(kind, seed, n_games, backend='cudd'):
                     sb += [v] if d['type'] == 'bool' else list(d['bitnames'])
                 its = ([_tt(aut, zt, sb) for zt in zk],
                        [[_tt(aut, y, sb) for y in yi] for yi in yki])
-            f, nr = analyse(aut, kind, mem, its)
+            f, nr = analyse(aut, kind, mem, its, win=as_set)
             reach_total += nr
             if len(samples) < 2:
                 samples.append(dict(game=desc, reachable_states=nr))
@@ -401,6 +404,7 @@ def rebuild_same_automaton(kind, seed, n_games, backend='cudd'):
                     aut.win['[]<>'] = [cp(u) for u in fresh.win['[]<>']]
                 desc = dict(env=de, sys=ds, moore=moore, plus_one=plus_one, qinit=qinit,
                             liveness_counts_in_turn=str(seq[:round_ + 1]), game_no=n, seed=seed)
+                as_set = (list(aut.win['<>[]']), list(aut.win['[]<>']))
                 try:
                     with contextlib.redirect_stdout(io.StringIO()):
                         if kind == 'streett':
@@ -428,7 +432,7 @@ def rebuild_same_automaton(kind, seed, n_games, backend='cudd'):
                         sb += [v] if d['type'] == 'bool' else list(d['bitnames'])
                     its = ([_tt(aut, zt, sb) for zt in zk],
                            [[_tt(aut, y, sb) for y in yi] for yi in yki])
-                f, nr = analyse(aut, kind, mem, its)
+                f, nr = analyse(aut, kind, mem, its, win=as_set)
                 for x in f[:3]:
                     x['game'] = desc
                     x['name'] = x.get('name', '') + ' (implementation constructed again on the same automaton after its liveness lists changed length)' * (round_ > 0)
